@@ -422,18 +422,56 @@ def run(repo, chk):
     c14._effects_kept(Remap(chk, {'C14.F7': 'C01.E2'}), astns, lexns['Span'](lexns['Cursor'](0, 0), lexns['Cursor'](0, 1)))
 
     # ---------------- S1 ------------------------------------------------------------------------------
-    lv = gf.paths('lookup_var')
-    ok = False
-    for p in lv:
-        ev = p.events
-        conds = [(e.text, e.truth) for e in ev if e.kind == 'cond']
-        if conds and conds[0][0].startswith('(access := self.local_vars.get(var.name))') and conds[0][1]:
-            rets = [src(e.value) for e in ev if e.kind == 'return']
-            ok = rets == ['(False, access)'] and not any(e.kind == 'call' and 'global' in e.short() for e in ev)
-    chk.expect(ok, 'C01.S1', 'lookup_var::locals first', 'a local (or parameter) of that name wins over a global', GEN)
-    t = src(gf.methods['lookup_var'])
-    chk.expect('self.env.vars.globals[var.name].init' in t and 'self.global_vars[var.name] = access' in t and "label_prefix=f'var_{var.name}'" in t,
-               'C01.S1', 'lookup_var::global materialisation', 'globals are created once from their own initialiser', GEN)
+    # lookup_var, interpreted: a local of that name wins; a global is created once, from its own initialiser, with the
+    # constness of its declaration, and the same accessor is handed out afterwards
+    bad = None
+    try:
+        gns = gf.module_ns()
+        git = repo.__dict__['_gen_ns']['it']
+        glex = git.load('hidc/lexer/__init__.py')
+        gspan = glex['Span'](glex['Cursor'](0, 0), glex['Cursor'](0, 1))
+        A = gns['ast']
+
+        class _Obj:
+            pass
+
+        def world():
+            g = object.__new__(gns['CodeGen'])
+            g.word_size = 2
+            g.stack = gns['StackPoint']()
+            g.state_data, g.const_data, g.numbered_labels, g.string_labels, g.global_vars = {}, {}, {}, {}, {}
+            import collections
+            g.local_vars = collections.ChainMap()
+            g.env = _Obj()
+            g.env.vars = _Obj()
+            g.env.vars.globals = {}
+            return g
+        vx = A.Variable('x', gns['DataType'].INT, False)
+        vc = A.Variable('c', gns['DataType'].INT, True)
+        g = world()
+        marker = object()
+        g.local_vars['x'] = marker
+        dx, dc = _Obj(), _Obj()
+        dx.init, dc.init = A.IntValue(41, gspan), A.IntValue(7, gspan)
+        g.env.vars.globals = {'x': dx, 'c': dc}
+        r = g.lookup_var(vx)
+        if not (r[0] is False and r[1] is marker and not g.state_data and not g.global_vars):
+            bad = f'a local named x must win over the global x: lookup returned {r!r}, globals materialised: {list(g.global_vars)}'
+        g = world()
+        g.env.vars.globals = {'x': dx, 'c': dc}
+        r1 = g.lookup_var(vx)
+        r2 = g.lookup_var(vx)
+        if bad is None and not (r1[0] is True and r2[0] is True and r1[1] is r2[1] and len(g.state_data) == 1 and
+                                next(iter(g.state_data)).label_name.startswith('var_x') and
+                                [getattr(i, 'data', None) for i in next(iter(g.state_data.values())).items] == [41]):
+            bad = f'a mutable global must be stored once under a var_<name> label with its initialiser: {r1!r} / {r2!r} / {g.state_data}'
+        rc = g.lookup_var(vc)
+        if bad is None and not (rc[0] is True and getattr(rc[1], 'data', None) == 7 and len(g.state_data) == 1):
+            bad = f'a const scalar global is its immediate value: {rc!r}'
+    except Exception as e:      # noqa: BLE001
+        bad = f'{type(e).__name__}: {e}'
+    chk.expect(bad is None, 'C01.S1', 'lookup_var::locals first / global materialisation', bad or 'a local (or parameter) of that name wins '
+               'over a global; globals are created once from their own initialiser', GEN)
     bad = None
     for p, ev in gf.inlined('gen_stmts'):
         arms = [e.text for e in ev if e.kind == 'case' and not e.origin]
@@ -478,15 +516,15 @@ def run(repo, chk):
     chk.expect(st[0] == st[2] and len(set(st)) == 3, 'C01.P1', 'label_for_string', f'{st}: one table entry per distinct byte string', GEN)
 
     # ---------------- A1 ---------------------------------------------------------------------------------
-    gl = gf.methods['gen_lines']
-    body = [src(s) for s in gl.body]
-    text = '\n'.join(body)
-    i_zero = text.find('asm.ZeroDirective(asm.WordOffset(self.stack_size))')
-    i_args = text.find('for arg in reversed(self.entry_args)')
-    i_ra = text.find("yield b'.word all_is_win'")
-    i_end = text.find("yield b'stack_end:'")
-    chk.expect(0 <= i_zero < i_args < i_ra < i_end, 'C01.A1', 'gen_lines::entry frame', 'zeroed stack, reversed entry arguments, win return '
-               'address, stack_end (= initial fp)', GEN)
+    lay = gf.layout()
+
+    def at(line):
+        return lay.index(line) if line in lay else -1
+    i_start, i_zero, i_a2, i_a1, i_ra, i_end = at(b'stack_start:'), at(b'.zero 7w'), at(b'.word 102'), at(b'.word 101'), \
+        at(b'.word all_is_win'), at(b'stack_end:')
+    chk.expect(0 <= i_start and [i_zero, i_a2, i_a1, i_ra, i_end] == list(range(i_start + 1, i_start + 6)), 'C01.A1', 'gen_lines::entry frame',
+               f'zeroed stack of stack_size words, entry arguments in reverse order, win return address, stack_end (= initial fp): '
+               f'{lay[max(i_start, 0):max(i_start, 0) + 7]}', GEN)
     pi = src(gf.methods['__post_init__'])
     i_len = pi.find('self.entry_args.append(asm.WordDirective(array_length))')
     i_org = pi.find('self.entry_args.append(asm.WordDirective(label))')
@@ -499,11 +537,10 @@ def run(repo, chk):
     chk.expect("self.label_for_func(ConcreteSignature(ast.Ident.you('is_you'), tuple(concrete_types)))" in pi, 'C01.A1',
                '__post_init__::entry specialisation', 'the entry point is generated for the concrete parameter types', GEN)
     # the code section starts with the entry function: execution begins at the first instruction
-    i_code = text.find("yield b'%section code'")
-    i_funcs = text.find('for code in self.func_table.values()')
-    i_lib = text.find('yield from stdlib.stdlib_lines')
-    chk.expect(0 <= i_code < i_funcs < i_lib, 'C01.A1', 'gen_lines::code section order',
-               'generated functions (entry function first) precede the library routines', GEN)
+    i_code, i_f, i_g, i_lib = at(b'%section code'), at(b'func_f:'), at(b'func_g:'), at(b'all_is_win:')
+    chk.expect(0 <= i_code and i_f == i_code + 1 < i_g < i_lib, 'C01.A1', 'gen_lines::code section order',
+               'generated functions, in the order of func_table (entry function first), directly follow `%section code` and precede '
+               f'the library routines: {lay[max(i_code, 0):max(i_code, 0) + 6]}', GEN)
     i_upd = pi.find('self.func_labels.update(stdlib.stdlib_funcs)')
     i_entry = pi.find("self.label_for_func(ConcreteSignature(ast.Ident.you('is_you')")
     i_make = pi.find('self.make_funcs()')
